@@ -18,7 +18,7 @@ def one(sid):
         if r.returncode != 0:
             return sid, "PATCH-DOES-NOT-APPLY", ""
         env = dict(os.environ, IGRIS_ROOT=wt)
-        checks = [prop] + (["C05"] if prop == "C04" else [])
+        checks = [prop] + (["C05"] if prop == "C04" else []) + ([meta["caught_by"]] if meta.get("caught_by") not in (None, prop) else [])
         out = []
         for c in checks:
             r = subprocess.run([os.path.join(V, "check"), c, "--workers", "4"], env=env, capture_output=True, text=True)
